@@ -11,6 +11,11 @@
      verify <label> <hex text> <hex name> <hex kid> <hex pk> <facts> <expect>   -> verdict class (model only)
      accept <label> <hex text> <hex name> <hex kid> <hex pk> <facts> <expect>   -> ok | rej  (+ specification)
      list   <label> <hex text> <hex name>                                       -> ok:<sorted hex key IDs> | err
+     deep_verify <kind> <depth>   a correctly signed object (`srv`, `ed25519:1`) one member of which is nested <depth> deep
+                                  (kind arr | obj: a signed member; uns: `unsigned`; sigs: inside `signatures`; open: never
+                                  closed), built from the two numbers on both sides        -> ok | rej (+ specification)
+     deep_sign   <kind> <depth>   SignJSON on such an object (arr | obj | uns), then VerifyJSON on the result
+                                                                                         -> ok:<verdict> | err (+ specification)
 -/
 import VDriver.Util
 import VModel.Sign
@@ -51,8 +56,12 @@ def coarse : Except Err Unit → String
 /-- the parsed text (`none`: not JSON) -/
 def readText (t : Bytes) : Option PVal := parse t
 
-/-- inside the gate of VerifyJSON (`strictJSON`) -/
-def strictP (p : PVal) : Bool := p.wellFormed && p.noDupKeys
+/-- inside the gate of VerifyJSON (`strictJSON`): everything but the inside of the value of `unsigned` — which is also
+    where the property speaks ("… and after `unsigned` is changed": to anything) -/
+def strictP (p : PVal) : Bool := (pruneUnsigned p).wellFormed && (pruneUnsigned p).noDupKeys
+
+/-- the whole message is one definite value for every reader -/
+def wholeP (p : PVal) : Bool := p.wellFormed && p.noDupKeys
 
 /-- inside the gate of SignJSON (`signStrictJSON`: no UTF-8 clause) -/
 def signStrictP (p : PVal) : Bool := pairedOk p && p.noDupKeys
@@ -72,6 +81,59 @@ def showKeys (ks : List Bytes) : String :=
   let hs := sortStrings (ks.map hex)
   "ok:" ++ (if hs.isEmpty then "-" else String.intercalate "," hs)
 
+/-- specification answer for a text nested deeper than encoding/json reads: C02 speaks of JSON objects the library can
+    read at all; C18 demands an answer (no crash, within the time budget) — which one is the model's business -/
+def specTooDeep : String := "unspecified:nested-deeper-than-encoding/json-reads(10000)"
+
+/-- the `accept` answer (model TAB specification) for a text; `factsOf` gives the oracle facts from the members of the
+    object the text denotes (never evaluated on a text beyond the depth limit: nothing parses such a text) -/
+def acceptAnswer (t name kid pk : Bytes) (factsOf : List (Bytes × JVal) → List (Bytes × Bytes × Bytes)) (expect : String) : String :=
+  if !depthOk t then coarse (verifyJSONText (oracleScheme []) name kid pk t) ++ "\t" ++ specTooDeep else
+  match readText t with
+  | none => "rej\trej"
+  | some p =>
+    let v := p.toJVal
+    let S := oracleScheme (match v with
+      | .obj o => factsOf o
+      | _ => [])
+    let m := coarse (verifyJSONText S name kid pk t)
+    let a := Spec.accepts S name kid pk v
+    let wf := match v with
+      | .obj o => Spec.wellFormedSigs (getLast o kSignatures)
+      | _ => false
+    -- the property demands rejection whenever there is no valid signature of (name, kid, pk) over the
+    -- payload, and acceptance when there is one and `signatures` is a well-formed signature object — whatever
+    -- `unsigned` holds (`strictP` does not look into it)
+    let s :=
+      if !strictP p then
+        (if expect == "ok" then "spec-mismatch:generator-expects-ok" else specAmbiguous (Spec.definitePayload p) "rej")
+      else if expect == "ok" then (if a && wf then "ok" else "spec-mismatch:generator-expects-ok")
+      else if expect == "rej" then (if !a then "rej" else "spec-mismatch:generator-expects-rej")
+      else if !a then "rej" else if wf then "ok" else "unspecified:signatures-not-a-signature-map"
+    m ++ "\t" ++ s
+
+def brackets (d : Nat) : Bytes := List.replicate d 0x5B ++ List.replicate d 0x5D
+
+def sigBlock (sig : Bytes) : Bytes := b!"\"signatures\":{\"srv\":{\"ed25519:1\":\"" ++ sig ++ b!"\"}}"
+
+/-- the texts of `deep_verify` (the harness builds the same bytes, with a real signature in place of `sig`) -/
+def deepText (kind : String) (d : Nat) (sig : Bytes) : Option Bytes :=
+  if kind == "arr" then some (b!"{\"a\":" ++ brackets d ++ b!"," ++ sigBlock sig ++ b!"}")
+  else if kind == "obj" then
+    some (b!"{\"a\":" ++ (List.replicate d b!"{\"a\":").flatten ++ b!"1" ++ List.replicate d 0x7D ++ b!"," ++ sigBlock sig ++ b!"}")
+  else if kind == "uns" then some (b!"{\"a\":1," ++ sigBlock sig ++ b!",\"unsigned\":" ++ brackets d ++ b!"}")
+  else if kind == "sigs" then
+    some (b!"{\"a\":1,\"signatures\":{\"srv\":{\"ed25519:1\":\"" ++ sig ++ b!"\"},\"zz\":" ++ brackets d ++ b!"}}")
+  else if kind == "open" then some (b!"{\"a\":" ++ List.replicate d 0x5B)
+  else none
+
+/-- the texts of `deep_sign` -/
+def deepSignText (kind : String) (d : Nat) : Option Bytes :=
+  if kind == "arr" then some (b!"{\"a\":" ++ brackets d ++ b!"}")
+  else if kind == "obj" then some (b!"{\"a\":" ++ (List.replicate d b!"{\"a\":").flatten ++ b!"1" ++ List.replicate d 0x7D ++ b!"}")
+  else if kind == "uns" then some (b!"{\"a\":1,\"unsigned\":" ++ brackets d ++ b!"}")
+  else none
+
 def handle (op : String) (args : Array String) : Option String :=
   match op, args.toList with
   | "sign", [_label, th, nh, kh, _key] =>
@@ -84,7 +146,7 @@ def handle (op : String) (args : Array String) : Option String :=
         -- its gate but is not valid UTF-8 it behaves as before the K7 repair, which is outside the property (JSON texts
         -- are Unicode) and outside this tie (the harness finds the signed payload through encoding/json, which rewrites
         -- invalid UTF-8 in member names)
-        if signStrictP p && !strictP p then some "skip:sign-of-a-text-that-is-not-valid-utf8" else
+        if signStrictP p && !wholeP p then some "skip:sign-of-a-text-that-is-not-valid-utf8" else
         let v := p.toJVal
         let pay : Bytes := match v with
           | .obj o => payload o
@@ -113,27 +175,36 @@ def handle (op : String) (args : Array String) : Option String :=
     | _, _, _, _, _ => some "bad-op"
   | "accept", [_label, th, nh, kh, pkh, fs, expect] =>
     match unhex th, unhex nh, unhex kh, unhex pkh, parseFacts fs with
-    | some t, some name, some kid, some pk, some facts =>
-      match readText t with
-      | none => some "rej\trej"
-      | some p =>
-        let v := p.toJVal
-        let S := oracleScheme facts
-        let m := coarse (verifyJSONText S name kid pk t)
-        let a := Spec.accepts S name kid pk v
-        let wf := match v with
-          | .obj o => Spec.wellFormedSigs (getLast o kSignatures)
-          | _ => false
-        -- the property demands rejection whenever there is no valid signature of (name, kid, pk) over the
-        -- payload, and acceptance when there is one and `signatures` is a well-formed signature object
-        let s :=
-          if !strictP p then
-            (if expect == "ok" then "spec-mismatch:generator-expects-ok" else specAmbiguous (Spec.definitePayload p) "rej")
-          else if expect == "ok" then (if a && wf then "ok" else "spec-mismatch:generator-expects-ok")
-          else if expect == "rej" then (if !a then "rej" else "spec-mismatch:generator-expects-rej")
-          else if !a then "rej" else if wf then "ok" else "unspecified:signatures-not-a-signature-map"
-        some (m ++ "\t" ++ s)
+    | some t, some name, some kid, some pk, some facts => some (acceptAnswer t name kid pk (fun _ => facts) expect)
     | _, _, _, _, _ => some "bad-op"
+  | "deep_verify", [kind, depth] =>
+    let d := depth.toNat!
+    match deepText kind d (b64Encode marker) with
+    | none => some "bad-op"
+    | some t =>
+      -- the oracle: the marker signature is genuine for the payload of the object the text denotes
+      let facts := fun (o : List (Bytes × JVal)) => [(marker, dummyPk, payload o)]
+      let expect := if kind == "sigs" then "any" else if kind == "open" then "rej" else "ok"
+      some (acceptAnswer t b!"srv" b!"ed25519:1" dummyPk facts expect)
+  | "deep_sign", [kind, depth] =>
+    let d := depth.toNat!
+    match deepSignText kind d with
+    | none => some "bad-op"
+    | some t =>
+      if !depthOk t then some ("err\t" ++ specTooDeep) else
+      match readText t with
+      | none => some "err\terr"
+      | some p =>
+        let pay : Bytes := match p.toJVal with
+          | .obj o => payload o
+          | v => encodeCanon v
+        let S := oracleScheme [(marker, dummyPk, pay)]
+        let m := match signJSONText S b!"srv" b!"ed25519:1" () t with
+          | .ok out => "ok:" ++ showVerdict (verifyJSONText S b!"srv" b!"ed25519:1" dummyPk (encodeCanon out))
+          | .error (.panic s) => "panic:" ++ s
+          | .error _ => "err"
+        -- C02: a JSON object signed with SignJSON verifies
+        some (m ++ "\tok:ok")
   | "list", [_label, th, nh] =>
     match unhex th, unhex nh with
     | some t, some name =>
